@@ -6,7 +6,7 @@ from typing import Any, Dict, List
 from .. import compare
 from ..core import BOUNDARY, Ctx, Taps
 from ..gen import dataset as D
-from ..scenario import Run, gen_scenario
+from ..scenario import Frame, Run, Scenario, gen_scenario
 
 LEVEL_TEXT = (
     "Held on every pair of executions run under the comparator: one physical scenario (moving ego with translation up to 1e4 m "
@@ -25,13 +25,14 @@ RULE = (
     "difference; distinct = (task, policy, range kind, removed?, tp?, fp?, fn?, tn?, n_frames class)"
 )
 ASSUMPTIONS = ["objects and ego have yaw-only rotations", "no decision within 1e-6 of a boundary in the ego-frame description (otherwise skipped)"]
-DECIDING = ["C07.pairs_compared", "C07.frames_compared", "C07.pairs_with_removed_object", "C07.pairs_with_tp", "C07.tracking_pairs", "C07.scene_compared"]
+DECIDING = ["C07.interpolated_pairs_compared", "C07.pairs_compared", "C07.frames_compared", "C07.pairs_with_removed_object", "C07.pairs_with_tp", "C07.tracking_pairs", "C07.scene_compared"]
 JOBS = {"quick": 4, "thorough": 14}
 TOL = 1e-6
 
 
 def run(ctx: Ctx) -> None:
     n = 160 if ctx.quick else 4000
+    interpolated_pairs(ctx, 30 if ctx.quick else 1500)
     for idx in ctx.indices("pairs", n):
         r = ctx.rng("pairs", idx)
         task = ["detection", "tracking", "detection", "fp_validation"][idx % 4]
@@ -92,3 +93,84 @@ def run(ctx: Ctx) -> None:
                 ctx.count("C07.tracking_pairs")
             buckets = tuple(bool(any(x[p] for x in dig_e)) for p in ("tp", "fp", "fn", "tn"))
             ctx.case((task, scn.info["policy"], "xy" if "max_x_position" in scn.cfg else "ring", removed, buckets, min(len(scn.frames), 3)), nontrivial=removed or tp, sample=dict(scn.info, margin=margin, frame0=dict(tp=dig_e[0]["tp"][:3], fp=dig_e[0]["fp"][:3], maps=dig_e[0]["metrics"]["maps"][:1])) if idx < 3 else None)
+
+
+def interpolated_pairs(ctx: Ctx, n: int) -> None:
+    """Frames produced by the library's own interpolated lookup (map-frame objects derived from two samples) evaluated
+    in the map frame, versus the same physical frame rendered in the ego frame by the oracle's algebra."""
+    import math
+
+    import numpy as np
+    from pyquaternion import Quaternion
+
+    from perception_eval.common.dataset import FrameGroundTruth
+    from perception_eval.common.object import DynamicObject
+    from perception_eval.common.schema import FrameID
+    from perception_eval.common.shape import Shape, ShapeType
+
+    from ..gen import objects as O
+    from ..oracles import geometry as G
+
+    for idx in ctx.indices("interpolated", n):
+        r = ctx.rng("interpolated", idx)
+        task = ["detection", "tracking"][idx % 2]
+        scn = gen_scenario(r, task=task, n_frames=r.randint(2, 4), fp_share=r.choice([0.0, 0.15]))
+        ctx.begin_case("interpolated", idx, **scn.info)
+        with ctx.case_guard("interpolated"):
+            with D.DatasetDir(scn.scene_spec()) as ds:
+                run_m, run_e = Run(scn, "map", ds), Run(scn, "base_link", ds)
+                for k in range(len(scn.frames)):  # the sample frames are evaluated first (as a user would)
+                    run_m.add(k)
+                    run_e.add(k)
+                for trial in range(2):
+                    k = r.randrange(len(scn.frames) - 1)
+                    t1, t2 = scn.frames[k].t, scn.frames[k + 1].t
+                    t = r.randint(t1 + 1, t2 - 1) if t2 - t1 > 2 else t1
+                    F = run_m.manager.get_ground_truth_now_frame(t, threshold_min_time=t2 - t1, interpolate_ground_truth=True)
+                    if F is None or any(F is f for f in run_m.manager.ground_truth_frames):
+                        ctx.count("C07.interpolated_not_produced")
+                        continue
+                    M = np.asarray(F.transforms.get((FrameID.BASE_LINK, FrameID.MAP)).matrix, dtype=float)
+                    Minv = G.inv_rigid(M)
+                    ego_yaw = G.yaw_of_matrix(M[:3, :3])
+                    ego_pos = tuple(float(v) for v in M[:3, 3])
+                    gts_e, specs_g, specs_e = [], [], []
+                    for o in F.objects:
+                        q = o.state.orientation
+                        yaw_m = G.yaw_of_quat((q.w, q.x, q.y, q.z))
+                        p = Minv @ np.append(np.array(o.state.position, dtype=float), 1.0)
+                        box = (float(p[0]), float(p[1]), float(p[2]), G.wrap_pi(yaw_m - ego_yaw), *[float(v) for v in o.state.size])
+                        ge = DynamicObject(unix_time=o.unix_time, frame_id=FrameID.BASE_LINK, position=box[:3], orientation=Quaternion(*G.quat_from_yaw(box[3])), shape=Shape(ShapeType.BOUNDING_BOX, box[4:7]), velocity=o.state.velocity, semantic_score=1.0, semantic_label=o.semantic_label, pointcloud_num=o.pointcloud_num, uuid=o.uuid, visibility=o.visibility)
+                        gts_e.append(ge)
+                        specs_g.append(dict(key=o.uuid, box=box))
+                        if r.random() < 0.85:
+                            sig = r.choice([0.05, 0.4, 1.5])
+                            eb = (box[0] + r.gauss(0, sig), box[1] + r.gauss(0, sig), box[2], G.wrap_pi(box[3] + r.gauss(0, 0.2)), box[4], box[5], box[6])
+                            name = o.semantic_label.name if r.random() < 0.8 else r.choice(["car", "pedestrian", "unknown", "bicycle"])
+                            specs_e.append(dict(key=f"e_{o.uuid}", name=name, box=eb, score=round(r.uniform(0.05, 1.0), 4), uuid=f"t_{o.uuid}"))
+                    pseudo = Scenario(task=task, frames=[Frame(t=t, ego_pos=ego_pos, ego_yaw=ego_yaw, gts=specs_g, ests=specs_e)], cfg=scn.cfg, critical=[scn.critical[k]], passfail=[scn.passfail[k]])
+                    margin = compare.scenario_margin(pseudo)
+                    if margin < BOUNDARY:
+                        ctx.count("C07.skipped_boundary")
+                        continue
+                    conv = run_m.config.label_converter
+
+                    def mk(e, frame):
+                        b = e["box"]
+                        o = O.obj3d(*b, score=e["score"], uuid=e["uuid"], t=t)
+                        o.semantic_label = conv.convert_label(e["name"])
+                        return O.to_map(o, ego_pos, ego_yaw) if frame == "map" else o
+
+                    crit_m, pf_m = run_m.configs(k)
+                    crit_e, pf_e = run_e.configs(k)
+                    res_m = run_m.manager.add_frame_result(t, F, [mk(e, "map") for e in specs_e], crit_m, pf_m)
+                    F_ego = FrameGroundTruth(unix_time=t, frame_name=F.frame_name, objects=gts_e, transforms=[O.ego2map(ego_pos, ego_yaw)])
+                    res_e = run_e.manager.add_frame_result(t, F_ego, [mk(e, "ego") for e in specs_e], crit_e, pf_e)
+                    a, b = compare.frame_digest(res_e), compare.frame_digest(res_m)
+                    for dgst in (a, b):
+                        dgst["metrics"]["tracking"] = []  # predecessors differ by construction here
+                    ctx.count("C07.interpolated_pairs_compared")
+                    dd = compare.diff(a, b, TOL * 10)
+                    if dd is not None:
+                        ctx.violation("C07/ego_and_map_runs_differ:interpolated_frame", dict(scn.info, t=t, neighbours=(t1, t2), first_difference=dd[:400], margin=margin), tap="comparator")
+                    ctx.case(("interpolated", task, scn.info["policy"], bool(a["tp"]), len(a["results"]) < len(specs_e)), nontrivial=True)
